@@ -27,7 +27,7 @@
 /*@unit {'name':'c06_find', 'props':['C06'], 'entry':'h_find', 'enforce':'Pass_findNDoRule', 'defines':['FIND','GRAPHITE2_NTRACING','NR=8','FINDN=128'], 'kind':'bounded', 'unwind':130,
   'bound':'candidate list of at most MAX_RULES=128 entries - the capacity of FiniteStateMachine::Rules, so the unwinding of the scan loop is complete (unwinding assertion) - over a pass of 8 rules (entries may repeat); collaborators runFSM/testConstraint/doAction/collectGarbage/adjustSlot are ghost models (truth table per rule, call log)',
   'claims':'findNDoRule (non-tracing build): candidates are tested in list order, each at most once, only while the machine is healthy; the rule acted on is the first candidate whose constraint is true (no earlier candidate passes), its action code is run exactly once, then garbage collection iff the action deletes and adjustSlot with the returned advance; if no candidate passes or the FSM does not run, no mutator is called and the cursor moves to slot->next(); a machine failure stops without action'}@*/
-/*@unit {'name':'c06_accumulate', 'props':['C06'], 'entry':'h_accum', 'enforce':'Rules_accumulate_rules', 'defines':['ACCUM','STUB_STORE','MAXL=4','NRP=8'], 'min_loops':3, 'backend':'cadical', 'object_bits':8, 'timeout':1500, 'cost':100,
+/*@unit {'name':'c06_accumulate', 'props':['C06','C02'], 'entry':'h_accum', 'enforce':'Rules_accumulate_rules', 'defines':['ACCUM','STUB_STORE','MAXL=4','NRP=8'], 'min_loops':3, 'backend':'cadical', 'object_bits':8, 'timeout':1500, 'cost':100,
   'assumptions':['Rules::m_rules is modelled as a pointer to a separate 2*MAX_RULES array object (pointer arithmetic and comparisons on it are the same as for the member array)',
                  'the store *out++ = *x++ is a ghost model with a body (asserts: destination is the next free entry inside the 128-entry half, source is an input entry, strictly after the previous store; effect: ghost log); the real stores run in c06_accumulate_b0/b1',
                  'harness: both input lists have at most 4 entries over a pass of 8 rules with symbolic sort keys; the loop contracts are inductive over ALL fill levels 0..128 of the output half (g_cnt is havocked), so the cap branch out == lrend is exercised'],
